@@ -144,10 +144,77 @@ fn collections_differ(resp: &Response) -> Option<String> {
     None
 }
 
+/// What the accessors of a decoded frame say must follow from the fields in wire order alone: `find` is the first value of
+/// the key; `get` removes exactly that field and leaves the others in order (observed through every iterator, `fields_len`
+/// and `size_hint`); repeated `get`s of a key yield its values in wire order.  Returns a description of the first deviation.
+pub fn accessors_differ(resp: &Response) -> Option<String> {
+    for f in resp.frames().flatten() {
+        let base: Vec<(String, String)> = f.fields().map(|(k, v)| (k.to_string(), v.to_string())).collect();
+        let n = base.len();
+        let show = |l: &[(String, String)]| l.iter().map(|(k, v)| format!("{k}={v}")).collect::<Vec<_>>().join(",");
+        let hint_bad = |it: (usize, Option<usize>), len: usize| it.0 > len || it.1.map_or(false, |h| h < len);
+        if hint_bad(f.fields().size_hint(), n) || hint_bad(f.into_iter().size_hint(), n) || hint_bad(f.clone().into_iter().size_hint(), n) {
+            return Some(format!("size_hint of a field iterator excludes the {n} fields it yields [{}]", show(&base)));
+        }
+        if f.fields_len() != n {
+            return Some(format!("fields_len()={} but fields() yields {n}", f.fields_len()));
+        }
+        for (k, _) in &base {
+            let want = base.iter().find(|(k2, _)| k2 == k).map(|(_, v)| v.as_str());
+            if f.find(k) != want {
+                return Some(format!("find({k:?}) = {:?}, the first field with that key is {:?}", f.find(k), want));
+            }
+        }
+        if n == 0 {
+            continue;
+        }
+        let mut picks = vec![0, n / 2, n - 1];
+        picks.dedup();
+        for idx in picks {
+            let key = base[idx].0.clone();
+            let mut g = f.clone();
+            let mut want = base.clone();
+            // every value of the key, in wire order, each get removing exactly one field
+            let mut round = 0;
+            while let Some(first) = want.iter().position(|(k, _)| *k == key) {
+                round += 1;
+                let got = g.get(&key);
+                if got.as_deref() != Some(want[first].1.as_str()) {
+                    return Some(format!("get({key:?}) #{round} = {:?}, expected {:?} (fields [{}])", got, want[first].1, show(&base)));
+                }
+                want.remove(first);
+                let rest: Vec<(String, String)> = g.fields().map(|(k, v)| (k.to_string(), v.to_string())).collect();
+                if rest != want {
+                    return Some(format!("after get({key:?}) #{round} the remaining fields are [{}], expected [{}] (the others, in wire order)", show(&rest), show(&want)));
+                }
+                let owned: Vec<(String, String)> = g.clone().into_iter().map(|(k, v)| (k.to_string(), v)).collect();
+                let mut back: Vec<(String, String)> = g.fields().rev().map(|(k, v)| (k.to_string(), v.to_string())).collect();
+                back.reverse();
+                if owned != want || back != want {
+                    return Some(format!("after get({key:?}) the owning / reversed iterator disagrees with fields() [{}]", show(&want)));
+                }
+                if hint_bad(g.fields().size_hint(), want.len()) || hint_bad(g.fields().rev().size_hint(), want.len()) || hint_bad(g.clone().into_iter().size_hint(), want.len()) {
+                    return Some(format!("after get({key:?}) size_hint {:?} excludes the {} fields left", g.fields().size_hint(), want.len()));
+                }
+                if g.fields_len() != want.len() || g.is_empty() != (want.is_empty() && !g.has_binary()) {
+                    return Some(format!("after get({key:?}): fields_len()={} is_empty()={} with {} fields left", g.fields_len(), g.is_empty(), want.len()));
+                }
+                if round >= 3 {
+                    break;
+                }
+            }
+            if round < 3 && g.get(&key).is_some() {
+                return Some(format!("get({key:?}) still yields a value after all fields with that key were taken"));
+            }
+        }
+    }
+    None
+}
+
 pub fn run(toks: &[&str]) -> String {
     let wire = unhex(toks[1]);
     let Some(resp) = response_of_wire(&wire) else { return "noresponse".into() };
-    if let Some(d) = collections_differ(&resp) {
+    if let Some(d) = collections_differ(&resp).or_else(|| accessors_differ(&resp)) {
         return format!("INCONSISTENT {d}");
     }
     match toks[0] {
